@@ -1,6 +1,12 @@
 
 type __ = Obj.t
 
+(** val negb : bool -> bool **)
+
+let negb = function
+| true -> false
+| false -> true
+
 type nat =
 | O
 | S of nat
@@ -48,6 +54,15 @@ let rec add n0 m =
 
 module Nat =
  struct
+  (** val sub : nat -> nat -> nat **)
+
+  let rec sub n0 m =
+    match n0 with
+    | O -> n0
+    | S k -> (match m with
+              | O -> n0
+              | S l -> sub k l)
+
   (** val leb : nat -> nat -> bool **)
 
   let rec leb n0 m =
@@ -61,7 +76,34 @@ module Nat =
 
   let ltb n0 m =
     leb (S n0) m
+
+  (** val divmod : nat -> nat -> nat -> nat -> nat * nat **)
+
+  let rec divmod x y q u =
+    match x with
+    | O -> (q, u)
+    | S x' ->
+      (match u with
+       | O -> divmod x' y (S q) y
+       | S u' -> divmod x' y q u')
+
+  (** val modulo : nat -> nat -> nat **)
+
+  let modulo x = function
+  | O -> x
+  | S y' -> sub y' (snd (divmod x y' O y'))
  end
+
+(** val nth : nat -> 'a1 list -> 'a1 -> 'a1 **)
+
+let rec nth n0 l default =
+  match n0 with
+  | O -> (match l with
+          | [] -> default
+          | x :: _ -> x)
+  | S m -> (match l with
+            | [] -> default
+            | _ :: t -> nth m t default)
 
 (** val rev : 'a1 list -> 'a1 list **)
 
@@ -74,6 +116,12 @@ let rec rev = function
 let rec map f = function
 | [] -> []
 | a :: t -> (f a) :: (map f t)
+
+(** val existsb : ('a1 -> bool) -> 'a1 list -> bool **)
+
+let rec existsb f = function
+| [] -> false
+| a :: l0 -> (||) (f a) (existsb f l0)
 
 (** val firstn : nat -> 'a1 list -> 'a1 list **)
 
@@ -103,6 +151,14 @@ type n =
 | Npos of positive
 
 module Pos =
+ struct
+  type mask =
+  | IsNul
+  | IsPos of positive
+  | IsNeg
+ end
+
+module Coq_Pos =
  struct
   (** val succ : positive -> positive **)
 
@@ -150,6 +206,80 @@ module Pos =
        | XO q -> XO (succ q)
        | XH -> XI XH)
 
+  (** val pred_double : positive -> positive **)
+
+  let rec pred_double = function
+  | XI p -> XI (XO p)
+  | XO p -> XI (pred_double p)
+  | XH -> XH
+
+  type mask = Pos.mask =
+  | IsNul
+  | IsPos of positive
+  | IsNeg
+
+  (** val succ_double_mask : mask -> mask **)
+
+  let succ_double_mask = function
+  | IsNul -> IsPos XH
+  | IsPos p -> IsPos (XI p)
+  | IsNeg -> IsNeg
+
+  (** val double_mask : mask -> mask **)
+
+  let double_mask = function
+  | IsPos p -> IsPos (XO p)
+  | x0 -> x0
+
+  (** val double_pred_mask : positive -> mask **)
+
+  let double_pred_mask = function
+  | XI p -> IsPos (XO (XO p))
+  | XO p -> IsPos (XO (pred_double p))
+  | XH -> IsNul
+
+  (** val sub_mask : positive -> positive -> mask **)
+
+  let rec sub_mask x y =
+    match x with
+    | XI p ->
+      (match y with
+       | XI q -> double_mask (sub_mask p q)
+       | XO q -> succ_double_mask (sub_mask p q)
+       | XH -> IsPos (XO p))
+    | XO p ->
+      (match y with
+       | XI q -> succ_double_mask (sub_mask_carry p q)
+       | XO q -> double_mask (sub_mask p q)
+       | XH -> IsPos (pred_double p))
+    | XH -> (match y with
+             | XH -> IsNul
+             | _ -> IsNeg)
+
+  (** val sub_mask_carry : positive -> positive -> mask **)
+
+  and sub_mask_carry x y =
+    match x with
+    | XI p ->
+      (match y with
+       | XI q -> succ_double_mask (sub_mask_carry p q)
+       | XO q -> double_mask (sub_mask p q)
+       | XH -> IsPos (pred_double p))
+    | XO p ->
+      (match y with
+       | XI q -> double_mask (sub_mask_carry p q)
+       | XO q -> succ_double_mask (sub_mask_carry p q)
+       | XH -> double_pred_mask p)
+    | XH -> IsNeg
+
+  (** val mul : positive -> positive -> positive **)
+
+  let rec mul x y =
+    match x with
+    | XI p -> add y (XO (mul p y))
+    | XO p -> XO (mul p y)
+    | XH -> y
+
   (** val compare_cont : comparison -> positive -> positive -> comparison **)
 
   let rec compare_cont r x y =
@@ -190,6 +320,18 @@ module Pos =
 
 module N =
  struct
+  (** val succ_double : n -> n **)
+
+  let succ_double = function
+  | N0 -> Npos XH
+  | Npos p -> Npos (XI p)
+
+  (** val double : n -> n **)
+
+  let double = function
+  | N0 -> N0
+  | Npos p -> Npos (XO p)
+
   (** val add : n -> n -> n **)
 
   let add n0 m =
@@ -197,7 +339,29 @@ module N =
     | N0 -> m
     | Npos p -> (match m with
                  | N0 -> n0
-                 | Npos q -> Npos (Pos.add p q))
+                 | Npos q -> Npos (Coq_Pos.add p q))
+
+  (** val sub : n -> n -> n **)
+
+  let sub n0 m =
+    match n0 with
+    | N0 -> N0
+    | Npos n' ->
+      (match m with
+       | N0 -> n0
+       | Npos m' ->
+         (match Coq_Pos.sub_mask n' m' with
+          | Coq_Pos.IsPos p -> Npos p
+          | _ -> N0))
+
+  (** val mul : n -> n -> n **)
+
+  let mul n0 m =
+    match n0 with
+    | N0 -> N0
+    | Npos p -> (match m with
+                 | N0 -> N0
+                 | Npos q -> Npos (Coq_Pos.mul p q))
 
   (** val compare : n -> n -> comparison **)
 
@@ -208,7 +372,7 @@ module N =
              | Npos _ -> Lt)
     | Npos n' -> (match m with
                   | N0 -> Gt
-                  | Npos m' -> Pos.compare n' m')
+                  | Npos m' -> Coq_Pos.compare n' m')
 
   (** val eqb : n -> n -> bool **)
 
@@ -219,7 +383,14 @@ module N =
              | Npos _ -> false)
     | Npos p -> (match m with
                  | N0 -> false
-                 | Npos q -> Pos.eqb p q)
+                 | Npos q -> Coq_Pos.eqb p q)
+
+  (** val leb : n -> n -> bool **)
+
+  let leb x y =
+    match compare x y with
+    | Gt -> false
+    | _ -> true
 
   (** val ltb : n -> n -> bool **)
 
@@ -227,9 +398,67 @@ module N =
     match compare x y with
     | Lt -> true
     | _ -> false
+
+  (** val min : n -> n -> n **)
+
+  let min n0 n' =
+    match compare n0 n' with
+    | Gt -> n'
+    | _ -> n0
+
+  (** val max : n -> n -> n **)
+
+  let max n0 n' =
+    match compare n0 n' with
+    | Gt -> n0
+    | _ -> n'
+
+  (** val pos_div_eucl : positive -> n -> n * n **)
+
+  let rec pos_div_eucl a b =
+    match a with
+    | XI a' ->
+      let (q, r) = pos_div_eucl a' b in
+      let r' = succ_double r in
+      if leb b r' then ((succ_double q), (sub r' b)) else ((double q), r')
+    | XO a' ->
+      let (q, r) = pos_div_eucl a' b in
+      let r' = double r in
+      if leb b r' then ((succ_double q), (sub r' b)) else ((double q), r')
+    | XH ->
+      (match b with
+       | N0 -> (N0, (Npos XH))
+       | Npos p -> (match p with
+                    | XH -> ((Npos XH), N0)
+                    | _ -> (N0, (Npos XH))))
+
+  (** val div_eucl : n -> n -> n * n **)
+
+  let div_eucl a b =
+    match a with
+    | N0 -> (N0, N0)
+    | Npos na -> (match b with
+                  | N0 -> (N0, a)
+                  | Npos _ -> pos_div_eucl na b)
+
+  (** val div : n -> n -> n **)
+
+  let div a b =
+    fst (div_eucl a b)
  end
 
 type kc = n * n
+
+(** val keys : kc list -> n list **)
+
+let keys l =
+  map fst l
+
+(** val total : kc list -> n **)
+
+let rec total = function
+| [] -> N0
+| k :: t -> let (_, c) = k in N.add c (total t)
 
 (** val lookup : n -> kc list -> n option **)
 
@@ -243,6 +472,11 @@ let rec rm k = function
 | [] -> []
 | k0 :: t ->
   let (k', c) = k0 in if N.eqb k k' then rm k t else (k', c) :: (rm k t)
+
+(** val mem : n -> n list -> bool **)
+
+let mem k l =
+  existsb (N.eqb k) l
 
 type call =
 | Access of n * n
@@ -269,6 +503,11 @@ let rec prun p s = function
 | [] -> (s, [])
 | c :: r ->
   let (s1, o) = p.pstep s c in let (s2, os) = prun p s1 r in (s2, (o :: os))
+
+(** val round_div : n -> n -> n **)
+
+let round_div a b =
+  N.div (N.add (N.mul (Npos (XO XH)) a) b) (N.mul (Npos (XO XH)) b)
 
 type lru_list = kc list
 
@@ -526,3 +765,467 @@ let clock_step s = function
 let clockP =
   { pinit = (Obj.magic { ck_o = []; ck_hand = O }); pstep =
     (Obj.magic clock_step); ptracked = (fun s -> map ekc (Obj.magic s).ck_o) }
+
+type slru = { sl_prob : lru_list; sl_prot : lru_list }
+
+(** val ll_has : n -> lru_list -> bool **)
+
+let ll_has k l =
+  match lookup k l with
+  | Some _ -> true
+  | None -> false
+
+(** val ll_pop_back : lru_list -> (kc * lru_list) option **)
+
+let ll_pop_back l =
+  match rev l with
+  | [] -> None
+  | x :: r -> Some (x, (rev r))
+
+(** val slru_prob_capacity : n -> n **)
+
+let slru_prob_capacity cap =
+  if N.eqb cap N0
+  then N0
+  else N.max (round_div cap (Npos (XI (XO XH)))) (Npos XH)
+
+(** val slru_prot_capacity : n -> n **)
+
+let slru_prot_capacity cap =
+  N.sub cap (slru_prob_capacity cap)
+
+(** val slru_maintain :
+    nat -> n -> lru_list -> lru_list -> lru_list * lru_list **)
+
+let rec slru_maintain fuel pcap prob prot =
+  match fuel with
+  | O -> (prob, prot)
+  | S f ->
+    if N.ltb pcap (total prot)
+    then (match ll_pop_back prot with
+          | Some p ->
+            let (k0, prot') = p in
+            let (k, c) = k0 in
+            slru_maintain f pcap (ll_push_front k c prob) prot'
+          | None -> (prob, prot))
+    else (prob, prot)
+
+(** val slru_maintain_all : n -> slru -> slru **)
+
+let slru_maintain_all pcap s =
+  let (pb, pt) = slru_maintain (length s.sl_prot) pcap s.sl_prob s.sl_prot in
+  { sl_prob = pb; sl_prot = pt }
+
+(** val slru_access : n -> n -> n -> slru -> slru **)
+
+let slru_access pcap k c s =
+  if ll_has k s.sl_prot
+  then { sl_prob = s.sl_prob; sl_prot = (ll_push_front k c s.sl_prot) }
+  else if ll_has k s.sl_prob
+       then slru_maintain_all pcap { sl_prob = (ll_remove k s.sl_prob);
+              sl_prot = (ll_push_front k c s.sl_prot) }
+       else s
+
+(** val slru_admit_internal : n -> n -> slru -> slru **)
+
+let slru_admit_internal k c s =
+  if (&&) (negb (ll_has k s.sl_prot)) (negb (ll_has k s.sl_prob))
+  then { sl_prob = (ll_push_front k c s.sl_prob); sl_prot = s.sl_prot }
+  else if ll_has k s.sl_prob
+       then { sl_prob = (ll_push_front k c s.sl_prob); sl_prot = s.sl_prot }
+       else s
+
+(** val slru_peek_lru : slru -> n option **)
+
+let slru_peek_lru s =
+  match ll_pop_back s.sl_prob with
+  | Some p -> let (k0, _) = p in let (k, _) = k0 in Some k
+  | None ->
+    (match ll_pop_back s.sl_prot with
+     | Some p -> let (k0, _) = p in let (k, _) = k0 in Some k
+     | None -> None)
+
+(** val slru_admit : n -> n -> slru -> slru **)
+
+let slru_admit k c s =
+  if (&&) (negb (ll_has k s.sl_prot)) (negb (ll_has k s.sl_prob))
+  then { sl_prob = (ll_push_front k c s.sl_prob); sl_prot = s.sl_prot }
+  else s
+
+(** val slru_remove : n -> slru -> slru **)
+
+let slru_remove k s =
+  if ll_has k s.sl_prob
+  then { sl_prob = (ll_remove k s.sl_prob); sl_prot = s.sl_prot }
+  else { sl_prob = s.sl_prob; sl_prot = (ll_remove k s.sl_prot) }
+
+(** val slru_evict : n -> n -> slru -> (slru * n list) * n **)
+
+let slru_evict pcap n0 s =
+  let s1 = slru_maintain_all pcap s in
+  let (p, rest1) = pop_while n0 N0 (rev s1.sl_prob) in
+  let (vs1, f1) = p in
+  let (p0, rest2) = pop_while n0 f1 (rev s1.sl_prot) in
+  let (vs2, f2) = p0 in
+  (({ sl_prob = (rev rest1); sl_prot = (rev rest2) }, (app vs1 vs2)), f2)
+
+(** val slru_step : n -> slru -> call -> slru * out **)
+
+let slru_step cap s cl =
+  let pcap = slru_prot_capacity cap in
+  (match cl with
+   | Access (k, c) -> ((slru_access pcap k c s), ODone)
+   | Admit (k, c) -> ((slru_admit k c s), OAdmit)
+   | Remove k -> ((slru_remove k s), ODone)
+   | Evict n0 ->
+     let (p, f) = slru_evict pcap n0 s in
+     let (s', vs) = p in (s', (OVictims (vs, f)))
+   | Clear -> ({ sl_prob = []; sl_prot = [] }, ODone))
+
+(** val slru_tr : slru -> kc list **)
+
+let slru_tr s =
+  app s.sl_prob s.sl_prot
+
+(** val slruP : n -> policy **)
+
+let slruP cap =
+  { pinit = (Obj.magic { sl_prob = []; sl_prot = [] }); pstep =
+    (Obj.magic slru_step cap); ptracked = (Obj.magic slru_tr) }
+
+type 'rs rnd = kc list * 'rs
+
+(** val rnd_one :
+    ('a1 -> n list -> nat * 'a1) -> 'a1 rnd -> (ent * 'a1 rnd) option **)
+
+let rnd_one choose = function
+| (items, r) ->
+  (match items with
+   | [] -> None
+   | d :: _ ->
+     let (i, r') = choose r (keys items) in
+     let (k, c) = nth (Nat.modulo i (length items)) items d in
+     Some (((k, c), false), ((rm k items), r')))
+
+(** val rnd_step :
+    ('a1 -> n list -> nat * 'a1) -> 'a1 rnd -> call -> 'a1 rnd * out **)
+
+let rnd_step choose st cl =
+  let (items, r) = st in
+  (match cl with
+   | Access (_, _) -> (st, ODone)
+   | Admit (k, c) -> ((((k, c) :: (rm k items)), r), OAdmit)
+   | Remove k -> (((rm k items), r), ODone)
+   | Evict n0 ->
+     let (p, f) = evict_loop (rnd_one choose) (length items) n0 N0 st [] in
+     let (st', vs) = p in (st', (OVictims (vs, f)))
+   | Clear -> (([], r), ODone))
+
+(** val randomP : ('a1 -> n list -> nat * 'a1) -> 'a1 -> policy **)
+
+let randomP choose r0 =
+  { pinit = (Obj.magic ([], r0)); pstep = (Obj.magic rnd_step choose);
+    ptracked = (Obj.magic fst) }
+
+(** val index_of : n -> n list -> nat **)
+
+let rec index_of k = function
+| [] -> O
+| x :: t -> if N.eqb k x then O else S (index_of k t)
+
+(** val replay_choose : n list -> n list -> nat * n list **)
+
+let replay_choose r ks =
+  match r with
+  | [] -> (O, [])
+  | k :: t -> ((if mem k ks then index_of k ks else O), t)
+
+(** val randomReplayP : n list -> policy **)
+
+let randomReplayP choices =
+  randomP replay_choose choices
+
+type arc = { a_p : n; a_t1 : lru_list; a_t2 : lru_list; a_b1 : lru_list;
+             a_b2 : lru_list }
+
+(** val ghost_push : n -> n -> n -> lru_list -> lru_list **)
+
+let ghost_push cap k c b =
+  let b1 = ll_push_front k c b in
+  if N.ltb cap (total b1)
+  then (match ll_pop_back b1 with
+        | Some p -> let (_, b2) = p in b2
+        | None -> b1)
+  else b1
+
+(** val arc_replace : n -> bool -> arc -> (kc * arc) option **)
+
+let arc_replace cap key_in_b2 s =
+  let t1c = total s.a_t1 in
+  if (&&) (N.ltb N0 t1c)
+       ((||) (N.leb s.a_p t1c) ((&&) key_in_b2 (N.eqb t1c s.a_p)))
+  then (match ll_pop_back s.a_t1 with
+        | Some p ->
+          let (k0, t1') = p in
+          let (k, c) = k0 in
+          Some ((k, c), { a_p = s.a_p; a_t1 = t1'; a_t2 = s.a_t2; a_b1 =
+          (ghost_push cap k c s.a_b1); a_b2 = s.a_b2 })
+        | None -> None)
+  else (match ll_pop_back s.a_t2 with
+        | Some p ->
+          let (k0, t2') = p in
+          let (k, c) = k0 in
+          Some ((k, c), { a_p = s.a_p; a_t1 = s.a_t1; a_t2 = t2'; a_b1 =
+          s.a_b1; a_b2 = (ghost_push cap k c s.a_b2) })
+        | None -> None)
+
+(** val arc_access : n -> n -> arc -> arc **)
+
+let arc_access k c s =
+  if ll_has k s.a_t1
+  then { a_p = s.a_p; a_t1 = (ll_remove k s.a_t1); a_t2 =
+         (ll_push_front k c s.a_t2); a_b1 = s.a_b1; a_b2 = s.a_b2 }
+  else if ll_has k s.a_t2
+       then { a_p = s.a_p; a_t1 = s.a_t1; a_t2 = (ll_push_front k c s.a_t2);
+              a_b1 = s.a_b1; a_b2 = s.a_b2 }
+       else s
+
+(** val arc_delta : n -> n -> n **)
+
+let arc_delta x y =
+  N.max (if (&&) (N.ltb N0 y) (N.ltb y x) then round_div x y else Npos XH)
+    (Npos XH)
+
+(** val arc_ghost_adapt : n -> n -> arc -> arc * bool **)
+
+let arc_ghost_adapt cap k s =
+  if ll_has k s.a_b1
+  then let b1' = ll_remove k s.a_b1 in
+       let delta = arc_delta (total s.a_b2) (total b1') in
+       ({ a_p = (N.min (N.add s.a_p delta) cap); a_t1 = s.a_t1; a_t2 =
+       s.a_t2; a_b1 = b1'; a_b2 = s.a_b2 }, false)
+  else if ll_has k s.a_b2
+       then let b2' = ll_remove k s.a_b2 in
+            let delta = arc_delta (total s.a_b1) (total b2') in
+            ({ a_p = (N.sub s.a_p delta); a_t1 = s.a_t1; a_t2 = s.a_t2;
+            a_b1 = s.a_b1; a_b2 = b2' }, true)
+       else (s, false)
+
+(** val arc_admit_fresh : n -> n -> n -> arc -> bool -> arc **)
+
+let arc_admit_fresh cap k c s1 kib2 =
+  let s2 =
+    if N.leb cap (N.add (total s1.a_t1) (total s1.a_t2))
+    then (match arc_replace cap kib2 s1 with
+          | Some p -> let (_, s') = p in s'
+          | None -> s1)
+    else s1
+  in
+  { a_p = s2.a_p; a_t1 = (ll_push_front k c s2.a_t1); a_t2 = s2.a_t2; a_b1 =
+  s2.a_b1; a_b2 = s2.a_b2 }
+
+(** val arc_admit : n -> n -> n -> arc -> arc **)
+
+let arc_admit cap k c s =
+  if ll_has k s.a_t1
+  then { a_p = s.a_p; a_t1 = (ll_remove k s.a_t1); a_t2 =
+         (ll_push_front k c s.a_t2); a_b1 = s.a_b1; a_b2 = s.a_b2 }
+  else if ll_has k s.a_t2
+       then { a_p = s.a_p; a_t1 = s.a_t1; a_t2 = (ll_push_front k c s.a_t2);
+              a_b1 = s.a_b1; a_b2 = s.a_b2 }
+       else let (s1, kib2) = arc_ghost_adapt cap k s in
+            arc_admit_fresh cap k c s1 kib2
+
+(** val arc_remove : n -> arc -> arc **)
+
+let arc_remove k s =
+  if ll_has k s.a_t1
+  then { a_p = s.a_p; a_t1 = (ll_remove k s.a_t1); a_t2 = s.a_t2; a_b1 =
+         s.a_b1; a_b2 = s.a_b2 }
+  else if ll_has k s.a_t2
+       then { a_p = s.a_p; a_t1 = s.a_t1; a_t2 = (ll_remove k s.a_t2); a_b1 =
+              s.a_b1; a_b2 = s.a_b2 }
+       else if ll_has k s.a_b1
+            then { a_p = s.a_p; a_t1 = s.a_t1; a_t2 = s.a_t2; a_b1 =
+                   (ll_remove k s.a_b1); a_b2 = s.a_b2 }
+            else { a_p = s.a_p; a_t1 = s.a_t1; a_t2 = s.a_t2; a_b1 = s.a_b1;
+                   a_b2 = (ll_remove k s.a_b2) }
+
+(** val arc_evict_one : n -> arc -> (ent * arc) option **)
+
+let arc_evict_one cap s =
+  let kib2 =
+    match ll_pop_back s.a_t1 with
+    | Some p -> let (k0, _) = p in let (k, _) = k0 in ll_has k s.a_b2
+    | None -> false
+  in
+  (match arc_replace cap kib2 s with
+   | Some p -> let (k0, s') = p in Some ((k0, false), s')
+   | None -> None)
+
+(** val arc_step : n -> arc -> call -> arc * out **)
+
+let arc_step cap s = function
+| Access (k, c) -> ((arc_access k c s), ODone)
+| Admit (k, c) -> ((arc_admit cap k c s), OAdmit)
+| Remove k -> ((arc_remove k s), ODone)
+| Evict n0 ->
+  let (p, f) =
+    evict_loop (arc_evict_one cap) (add (length s.a_t1) (length s.a_t2)) n0
+      N0 s []
+  in
+  let (s', vs) = p in (s', (OVictims (vs, f)))
+| Clear -> ({ a_p = N0; a_t1 = []; a_t2 = []; a_b1 = []; a_b2 = [] }, ODone)
+
+(** val arc_tr : arc -> kc list **)
+
+let arc_tr s =
+  app s.a_t1 s.a_t2
+
+(** val arcP : n -> policy **)
+
+let arcP cap =
+  { pinit =
+    (Obj.magic { a_p = N0; a_t1 = []; a_t2 = []; a_b1 = []; a_b2 = [] });
+    pstep = (Obj.magic arc_step cap); ptracked = (Obj.magic arc_tr) }
+
+(** val tl_window_target : n -> n **)
+
+let tl_window_target cap =
+  if N.eqb cap N0
+  then N0
+  else N.max (round_div cap (Npos (XO (XO (XI (XO (XO (XI XH)))))))) (Npos XH)
+
+(** val tl_main_prot_capacity : n -> n **)
+
+let tl_main_prot_capacity cap =
+  let main = N.sub cap (tl_window_target cap) in
+  if N.eqb main N0
+  then N0
+  else N.sub main (N.max (round_div main (Npos (XI (XO XH)))) (Npos XH))
+
+type 'sk tlfu = { tl_win : lru_list; tl_main : slru; tl_sk : 'sk }
+
+(** val tl_window_loop :
+    ('a1 -> n -> n) -> nat -> n -> 'a1 -> lru_list -> slru -> n list ->
+    (lru_list * slru) * n list **)
+
+let rec tl_window_loop sk_est fuel wt s win m rej =
+  match fuel with
+  | O -> ((win, m), (rev rej))
+  | S f ->
+    if N.ltb wt (total win)
+    then (match ll_pop_back win with
+          | Some p ->
+            let (k, win') = p in
+            let (ck, cc) = k in
+            let admit_candidate =
+              match slru_peek_lru m with
+              | Some v -> N.leb (sk_est s v) (sk_est s ck)
+              | None -> true
+            in
+            if admit_candidate
+            then tl_window_loop sk_est f wt s win'
+                   (slru_admit_internal ck cc m) rej
+            else tl_window_loop sk_est f wt s win' m (ck :: rej)
+          | None -> ((win, m), (rev rej)))
+    else ((win, m), (rev rej))
+
+(** val tl_access :
+    ('a1 -> n -> 'a1) -> n -> n -> n -> 'a1 tlfu -> 'a1 tlfu **)
+
+let tl_access sk_incr cap k c s =
+  let s1 = sk_incr s.tl_sk k in
+  if ll_has k s.tl_win
+  then { tl_win = (ll_push_front k c s.tl_win); tl_main = s.tl_main; tl_sk =
+         s1 }
+  else { tl_win = s.tl_win; tl_main =
+         (slru_access (tl_main_prot_capacity cap) k c s.tl_main); tl_sk = s1 }
+
+(** val tl_admit :
+    ('a1 -> n -> 'a1) -> ('a1 -> n -> n) -> n -> n -> n -> 'a1 tlfu -> 'a1
+    tlfu * out **)
+
+let tl_admit sk_incr sk_est cap k c s =
+  let s1 = sk_incr s.tl_sk k in
+  if (||) (ll_has k s.tl_main.sl_prob) (ll_has k s.tl_main.sl_prot)
+  then ({ tl_win = s.tl_win; tl_main =
+         (slru_access (tl_main_prot_capacity cap) k c s.tl_main); tl_sk =
+         s1 }, OAdmit)
+  else let win1 = ll_push_front k c s.tl_win in
+       let (p, rej) =
+         tl_window_loop sk_est (length win1) (tl_window_target cap) s1 win1
+           s.tl_main []
+       in
+       let (win2, m2) = p in
+       ({ tl_win = win2; tl_main = m2; tl_sk = s1 },
+       (match rej with
+        | [] -> OAdmit
+        | _ :: _ -> OAdmitEvict rej))
+
+(** val tl_remove : n -> 'a1 tlfu -> 'a1 tlfu **)
+
+let tl_remove k s =
+  if ll_has k s.tl_win
+  then { tl_win = (ll_remove k s.tl_win); tl_main = s.tl_main; tl_sk =
+         s.tl_sk }
+  else { tl_win = s.tl_win; tl_main = (slru_remove k s.tl_main); tl_sk =
+         s.tl_sk }
+
+(** val tl_evict : n -> n -> 'a1 tlfu -> ('a1 tlfu * n list) * n **)
+
+let tl_evict cap n0 s =
+  if N.eqb n0 N0
+  then ((s, []), N0)
+  else let (p, f) = slru_evict (tl_main_prot_capacity cap) n0 s.tl_main in
+       let (m', vs) = p in
+       (({ tl_win = s.tl_win; tl_main = m'; tl_sk = s.tl_sk }, vs), f)
+
+(** val tl_step :
+    ('a1 -> n -> 'a1) -> ('a1 -> n -> n) -> ('a1 -> 'a1) -> n -> 'a1 tlfu ->
+    call -> 'a1 tlfu * out **)
+
+let tl_step sk_incr sk_est sk_clear cap s = function
+| Access (k, c) -> ((tl_access sk_incr cap k c s), ODone)
+| Admit (k, c) -> tl_admit sk_incr sk_est cap k c s
+| Remove k -> ((tl_remove k s), ODone)
+| Evict n0 ->
+  let (p, f) = tl_evict cap n0 s in
+  let (s', vs) = p in (s', (OVictims (vs, f)))
+| Clear ->
+  ({ tl_win = []; tl_main = { sl_prob = []; sl_prot = [] }; tl_sk =
+    (sk_clear s.tl_sk) }, ODone)
+
+(** val tl_tr : 'a1 tlfu -> kc list **)
+
+let tl_tr s =
+  app s.tl_win (slru_tr s.tl_main)
+
+(** val tinyLfuP :
+    ('a1 -> n -> 'a1) -> ('a1 -> n -> n) -> ('a1 -> 'a1) -> 'a1 -> n -> policy **)
+
+let tinyLfuP sk_incr sk_est sk_clear sk0 cap =
+  { pinit =
+    (Obj.magic { tl_win = []; tl_main = { sl_prob = []; sl_prot = [] };
+      tl_sk = sk0 }); pstep =
+    (Obj.magic tl_step sk_incr sk_est sk_clear cap); ptracked =
+    (Obj.magic tl_tr) }
+
+type replay_sk = n list * n list list
+
+(** val replay_incr : replay_sk -> n -> replay_sk **)
+
+let replay_incr s _ =
+  match snd s with
+  | [] -> ([], [])
+  | h :: t -> (h, t)
+
+(** val replay_est : replay_sk -> n -> n **)
+
+let replay_est s k =
+  if mem k (fst s) then N0 else Npos XH
+
+(** val tinyLfuReplayP : n list list -> n -> policy **)
+
+let tinyLfuReplayP rejects cap =
+  tinyLfuP replay_incr replay_est (fun s -> s) ([], rejects) cap
